@@ -479,7 +479,42 @@ def b_parse(ctx):
 
 
 b_parse.replay = lambda inp: (lambda r: {'failed': bool(r), 'observation': r})(_job_parse(tuple(inp)))
-BOUNDED = [b_cuts, b_parse, b_parse_lines]
+LONG_UNITS = ['/**/ ', '/* x */\t', '//c\n', ' ', '\n', '\r\n', '{', '}', '"a" ', 'bare ', '[f] ', '"\\n" ', '+', ':', ',', '= ',
+              '#d ', '(p) ', '\ufeff', '/**/', '"a"\n{\n', '}\n']
+
+
+def _job_long(job):
+    """Long runs of one syntactic unit: the work per token must not grow with the run (no recursion per skipped unit)."""
+    unit, count, optmask = job
+    opts = {name: bool(optmask >> i & 1) for i, name in enumerate(OPTS)}
+    text = unit * count + '"end"'
+    ref = _run(text, opts)
+    if isinstance(ref[1], tuple) and ref[1][0] == 'UNEXPECTED':
+        return f'{count} x {unit!r}: tokenizing raised {ref[1][1]}: {ref[1][2][:80]} (only TokenSyntaxError is allowed)'
+    if isinstance(ref[1], str):
+        return f'{count} x {unit!r}: {ref[1]}'
+    for chunks in (list(text), [text[i:i + 7] for i in range(0, len(text), 7)], text.splitlines(keepends=True)):
+        got = _run(iter(chunks), opts)
+        if got != ref:
+            return f'{count} x {unit!r}: chunked input gives a different token stream / error than the whole string'
+    return None
+
+
+@bounded('C03.B-long-runs', bound='22 syntactic units (both comment kinds, blanks, line ends, braces, quoted / bare strings, '
+         'flags, operators, directives, BOM, block open/close) repeated 3000 times (thorough: also 20000), under 6 option '
+         'sets, whole / per character / 7-character chunks / per line', rule='one case per (unit, count, options)')
+def b_long(ctx):
+    masks = [0, 0b0001000, 0b0011000, 0b1100011, 0b1111111, 0b0000100]
+    counts = [3000] + ([20000] if ctx.thorough else [])
+    jobs = [(u, n, m) for u in LONG_UNITS for n in counts for m in masks]
+    for job, bad in ctx.pmap(_job_long, jobs, batch=64, job_timeout=30.0):
+        ctx.case(job)
+        if bad:
+            ctx.violation(f'long={job[0]!r}x{job[1]}.opts={job[2]}'.replace(' ', '_').replace('\n', 'n'), bad, list(job))
+
+
+b_long.replay = lambda inp: (lambda r: {'failed': bool(r), 'observation': r})(_job_long(tuple(inp)))
+BOUNDED = [b_cuts, b_parse, b_parse_lines, b_long]
 
 
 def _witness(model, obligation):
